@@ -12,7 +12,7 @@ import (
 )
 
 func init() {
-	register("C06", 30, "Decided (for the current source): (R1) the trigger lines printed by trz/tsz and the detector agree on the grammar — same prefix literal in both formats, the three regexps and the two last-occurrence searches; the printed fields (mode in [SRD], version, zero-padded id of >= 13 digits, port) instantiate the regexp's group sequence, checked on the parsed regexp tree; the detector's length/offset constants are consistent with the prefix; the client rewrite of the prefix no longer contains the prefix and the relay suffix is inserted after characters outside every group; role suffixes (+10 Windows, +20 tmux) agree with the detector's suffix tests; (R2) each output pump calls the detector once per chunk and starts the handler/handshake only on the trigger != nil edge, and the detector returns a trigger only after the repeated-id test and the finished-transfer look-ahead; (R3) each suppression word is a prefix of a message the code really prints at the end of a transfer. Not decided: what the regexps match inside arbitrary surrounding bytes, id history over a session, tmux control-mode framing at run time.",
+	register("C06", 30, "Decided (for the current source): (R1) the trigger lines printed by trz/tsz and the detector agree on the grammar — same prefix literal in both formats, the three regexps and the two last-occurrence searches; the printed fields (mode in [SRD], version, zero-padded id of >= 13 digits, port) instantiate the regexp's group sequence, checked on the parsed regexp tree; the detector's length/offset constants are consistent with the prefix; the client rewrite of the prefix no longer contains the prefix and the relay suffix is inserted after characters outside every group; role suffixes (+10 Windows, +20 tmux) agree with the detector's suffix tests; (R2) each output pump calls the detector once per chunk and starts the handler/handshake only on the trigger != nil edge, and the detector returns a trigger only after the repeated-id test and the finished-transfer look-ahead; (R3) each suppression word is a prefix of a message the code really prints at the end of a transfer. Not decided: what the regexps match inside arbitrary surrounding bytes, id history over a session, tmux control-mode framing at run time. Added: the detected trigger is recorded before the handler starts; a transfer is confirmed only as the one active transfer and declined only on user cancel; (R4) the mode letter selects its action on the client and is the letter the server prints.",
 		func(c *Ctx) {
 			c.run("C06-R1", "LITERAL: printer and detector agree on the trigger grammar", c06R1)
 			c.run("C06-R2", "WHO-CALLS/GUARD-DOM: exactly one start per detection; suppression tests precede a trigger", c06R2)
